@@ -113,7 +113,8 @@ META.update({
 CHECKS["C06"] = dict(parts=[part("gateway-exchanges-independent", "gw", "TestC06GW", 3000, 200_000),
                             part("gateway-message-id-reused", "gw", "TestC06Reuse", 2000, 150_000),
                             part("client-exchanges-independent", "cl", "TestC06Client", 3000, 200_000)])
-CHECKS["C15"] = dict(parts=[part("sessions-isolated", "gw", "TestC15", 1500, 100_000),
+CHECKS["C15"] = dict(parts=[part("sessions-isolated", "gw", "TestC15", 1500, 100_000, death_is_violation=True, death_kind="gateway-process-died/in-process"),
+                            part("sessions-isolated-race-detector", "gw", "TestC15", 400, 30_000, race=True, death_is_violation=True, death_kind="data-race-or-crash/sessions", env={"GORACE": "halt_on_error=1"}),
                             part("listen-and-serve-isolated", "gw", "TestC15Net", 160, 6000, qshards=4, tshards=12, death_is_violation=True, death_kind="gateway-process-died/listen-and-serve")])
 CHECKS["C25"] = dict(parts=[part("hostile-client-to-gateway", "gw", "TestC25Client", 3000, 200_000, death_is_violation=True, death_kind="gateway-session-panic/hostile-client"),
                             part("hostile-broker-to-gateway", "gw", "TestC25Broker", 3000, 200_000, death_is_violation=True, death_kind="gateway-session-panic/hostile-broker"),
@@ -124,7 +125,7 @@ META.update({
         note=_GW_NOTE + " Exchanges of the same direction never share an ID (out of the property's scope); no time passes, so no retry timer interferes.",
         technique="stateful PBT over interleavings of symbolic exchange steps; oracle = per-exchange completion model"),
     "C15": dict(
-        text="Exploration (metamorphic): 2-3 sessions built from one shared gateway configuration and predefined map run interleaved in a drawn order, one of them possibly hostile; each session's outgoing bytes (to its client and to its broker connection) must equal those of the same script run alone. A second part runs 2-4 scripted peers, each on its own UDP socket and all at once, against the real Gateway.ListenAndServe on loopback with the harness as the broker on a TCP listener: per peer, the multiset of datagrams received and of MQTT packets on its broker connection must equal the alone-run, with exactly one broker connection per peer address carrying only that peer's client ID.",
+        text="Exploration (metamorphic): 2-3 sessions built from one shared gateway configuration and predefined map run interleaved in a drawn order, one of them possibly hostile; each session's outgoing bytes (to its client and to its broker connection) must equal those of the same script run alone. The same cases also run under Go's race detector (halt on error): memory shared between two sessions' goroutines shows as a data race even when the bad overlap did not happen in that run. A further part runs 2-4 scripted peers, each on its own UDP socket and all at once, against the real Gateway.ListenAndServe on loopback with the harness as the broker on a TCP listener: per peer, the multiset of datagrams received and of MQTT packets on its broker connection must equal the alone-run, with exactly one broker connection per peer address carrying only that peer's client ID.",
         note=_GW_NOTE + " The ListenAndServe part uses real sockets and real time: a difference counts only if it shows in two executions (the second one paced), set-up failures are inconclusive, order within a direction is not compared, sleeping is left to the in-memory part. Scripts are constructed so that a lone session is deterministic (no name with two topic IDs, unique predefined names), otherwise map iteration order would differ between runs; no virtual time passes inside a case.",
         technique="metamorphic PBT: alone-vs-interleaved trace equality (in memory on virtual time, and through the real ListenAndServe on loopback sockets)"),
     "C25": dict(
